@@ -451,7 +451,34 @@ def check_j_scale(ctx):
     """R01.5 (also used by C08): J_scale == 4 [current_units]/[length_units]/K0, dimensionless."""
     repo = ctx.repo
     T, ip, dev, me, fr, fi = solver_scales(repo)
-    ok_, js = fr.lookup("J_scale")
+    # the scale is identified by its role, not its name: the factor applied to the values of the user's current function
+    fn = fi.node
+    sa = [n for n in own_nodes(fn) if isinstance(n, ast.Assign) and any(
+        isinstance(t, ast.Attribute) and t.attr == "current_func" for t in n.targets)]
+    ok = False
+    det = None
+    jname = None
+    if len(sa) == 1 and isinstance(sa[0].value, ast.Lambda) and isinstance(sa[0].value.body, ast.DictComp):
+        dc = sa[0].value.body
+        det = norm(dc)
+        v = dc.value
+        tgt = dc.generators[0].target
+        loopvars = {getattr(e, "id", None) for e in getattr(tgt, "elts", [])}
+        it = dc.generators[0].iter
+        lam_args = [a.arg for a in sa[0].value.args.args]
+        iter_ok = isinstance(it, ast.Call) and isinstance(it.func, ast.Attribute) and it.func.attr == "items" and not it.args \
+            and isinstance(it.func.value, ast.Call) and isinstance(it.func.value.func, ast.Name) \
+            and [getattr(a, "id", None) for a in it.func.value.args] == lam_args
+        if isinstance(v, ast.BinOp) and isinstance(v.op, ast.Mult) and isinstance(v.left, ast.Name) and isinstance(v.right, ast.Name):
+            others = {v.left.id, v.right.id} - loopvars
+            valvar = getattr(tgt.elts[1], "id", None) if isinstance(tgt, ast.Tuple) and len(tgt.elts) == 2 else None
+            if len(others) == 1 and valvar in (v.left.id, v.right.id) and isinstance(dc.key, ast.Name) and dc.key.id == getattr(tgt.elts[0], "id", "?"):
+                jname = others.pop()
+                ok = iter_ok
+    if jname is None:
+        raise AnalysisError("self.current_func is no longer `lambda t: {key: <scale> * value for key, value in f(t).items()}`: "
+                            "cannot identify the current scale")
+    ok_, js = fr.lookup(jname)
     if not ok_ or not isinstance(js, Rat):
         raise AnalysisError(f"J_scale in TDGLSolver.__init__ is not a dimensionless number in the model: {js!r}")
     xi, lam, d = T.real("xi"), T.real("lam"), T.real("d")
@@ -466,20 +493,8 @@ def check_j_scale(ctx):
            consequence="the dimensionless terminal current density is off by a unit-dependent factor: the injected current "
                        "differs from the requested one in some unit system")
     # applied exactly once to the values of the user's current function
-    fn = fi.node
-    sa = [n for n in own_nodes(fn) if isinstance(n, ast.Assign) and any(
-        isinstance(t, ast.Attribute) and t.attr == "current_func" for t in n.targets)]
-    ok = False
-    det = None
-    if len(sa) == 1 and isinstance(sa[0].value, ast.Lambda) and isinstance(sa[0].value.body, ast.DictComp):
-        dc = sa[0].value.body
-        det = norm(dc)
-        v = dc.value
-        ok = isinstance(v, ast.BinOp) and isinstance(v.op, ast.Mult) and \
-            {getattr(v.left, "id", None), getattr(v.right, "id", None)} == {"J_scale", getattr(dc.generators[0].target.elts[1], "id", "?")} \
-            and norm(dc.generators[0].iter) == "current_func(t).items()"
     mult_uses = [n for n in ast.walk(fn) if isinstance(n, ast.BinOp) and isinstance(n.op, ast.Mult) and any(
-        isinstance(x, ast.Name) and x.id == "J_scale" for x in (n.left, n.right))]
+        isinstance(x, ast.Name) and x.id == jname for x in (n.left, n.right))]
     ctx.ob("R01.5", "J_scale multiplies every value returned by the user's current function, exactly once",
            ok and len(mult_uses) == 1, detail={"current_func": det, "multiplications_by_J_scale": len(mult_uses)},
            where=fi.fq, construct="self.current_func", loc=loc(fi, sa[0]) if sa else "",
